@@ -150,6 +150,36 @@ def run(R):
     wr = [f for f in mw.nested.values()]
     wc = [f for c_ in ast.walk(mw.node) if isinstance(c_, ast.ClassDef) for f in c_.body if isinstance(f, ast.FunctionDef) and f.name == "__call__"]
     okw = len(wc) == 1 and any(isinstance(x, ast.Call) and q.call_name(x) == p0 and [q.src(a) for a in x.args] == ["*args"] and x.keywords for x in ast.walk(wc[0]))
+    # whether .asynq can be attached is found out by trying (set and delete a test attribute; AttributeError for bound methods,
+    # TypeError for extension types, whatever a custom __setattr__ raises of those): a structural guess (has a __dict__, is a method)
+    # misses callables that have a __dict__ and still refuse new attributes, and then attaching fails AFTER the target was patched
+    probes = []
+    # (the probe may live in a helper that is handed the replacement)
+    scopes = [(mw.node, p0)]
+    for c_, tg_, kind_ in R.res.callees(mw):
+        if kind_ == "resolved" and c_.args and any(q.src(a) == p0 for a in c_.args):
+            for t__ in tg_:
+                if t__.cls is None and t__.module is mw.module:
+                    idx = [q.src(a) for a in c_.args].index(p0)
+                    ps_ = q.param_names(t__.node)
+                    if idx < len(ps_):
+                        scopes.append((t__.node, ps_[idx]))
+    for scope_node, pv in scopes:
+      for t_ in [x for x in ast.walk(scope_node) if isinstance(x, ast.Try)]:
+        sets_ = [x for st in t_.body for x in ast.walk(st) if (isinstance(x, ast.Attribute) and isinstance(x.ctx, ast.Store) and q.src(x.value) == pv)
+                 or (isinstance(x, ast.Call) and q.call_name(x) == "setattr" and x.args and q.src(x.args[0]) == pv)]
+        caught = set()
+        for h_ in t_.handlers:
+            if h_.type is None:
+                caught |= set(["AttributeError", "TypeError"])
+            else:
+                caught |= set(q.src(e) for e in (h_.type.elts if isinstance(h_.type, ast.Tuple) else [h_.type]))
+        if sets_ and (set(["AttributeError", "TypeError"]) <= caught or "Exception" in caught or "BaseException" in caught):
+            probes.append(t_)
+    R.check(bool(probes), "C19.WRAP-NEW", mw.qualname + ":probe", R.site(mw),
+            "whether the replacement accepts attributes is decided by trying to set one (AttributeError and TypeError mean no)",
+            "_maybe_wrap_new no longer tries to set an attribute on the replacement: a callable that has a __dict__ but refuses new attributes is "
+            "not wrapped, attaching .asynq fails inside __enter__ after the standard patcher installed it, and the original is never restored")
     R.check(okw, "C19.WRAP-NEW", mw.qualname + ":wrapper", R.site(mw), "the wrapper for attribute-less callables forwards (*args, **kwargs)", "the wrapper for attribute-less callables does not forward its arguments")
     # the pair decorator keeps staticmethod/classmethod wrappers and rebinds sync_fn per access (shared with C09)
     pd = repo.cls("decorators.AsyncAndSyncPairDecorator")
